@@ -87,6 +87,8 @@ def check(run, driver):
             sc = float(10 ** rng.uniform(1.5, 3))
             W = W * sc; X, Y, Z = W[:, :dx], W[:, dx:dx + dy], W[:, dx + dy:]
             bw = float(sc * rng.uniform(0.2, 0.6))
+        if it % 6 == 1 and N <= 60:      # arguments of different dtypes: X as tie-free integers (ranks), Y and Z continuous
+            X = (np.argsort(np.argsort(X, axis=0), axis=0) - N // 2).astype(np.int64)
         kind = ["entropy", "mi", "cmi"][(it // 3) % 3]
         if kind == "entropy":
             val = float(call_form(kde_entropy, "kde_entropy", it, X=X, bandwidth=bw, kernel="gaussian")); args = {"X": fmat(X)}
